@@ -166,6 +166,16 @@ def build_props(prop, timeout=1500):
     return res
 
 
+def run_coqchk(prop, timeout=1500):
+    """independent re-check of Props/<prop>.vo and everything it depends on; returns (ok, summary text)"""
+    rc, out = sh(["coqchk", "-silent", "-o", "-Q", ".", "V", "V.Props.%s" % prop], timeout, cwd=COQ)
+    i = out.find("CONTEXT SUMMARY")
+    summary = " ".join(out[i:].split()) if i >= 0 else out[-800:]
+    m = re.search(r"\* Axioms:\s*(.*?)\s*\* Constants/Inductives relying on type-in-type:\s*(.*?)\s*\* Constants/Inductives relying on unsafe \(co\)fixpoints:\s*(.*?)\s*\* Inductives whose positivity is assumed:\s*(\S+)", summary)
+    ok = rc == 0 and m is not None and all(g.strip() == "<none>" for g in m.groups())
+    return ok, summary[:1200]
+
+
 def split_assumptions(out):
     blocks, cur = [], None
     for line in out.split("\n"):
